@@ -18,7 +18,9 @@ impl MassProperties {
             return MassProperties::new(com, 0.0, 0.0);
         }
 
-        let ipart = triangle.unit_angular_inertia();
+        // `unit_angular_inertia` is relative to the vertex `a`: move it to the
+        // center of mass with the parallel axis theorem.
+        let ipart = triangle.unit_angular_inertia() - (com - a).norm_squared();
 
         Self::new(com, area * density, ipart * area * density)
     }
